@@ -193,7 +193,7 @@ Fixpoint deliveries_ok (st : bool) (tr : list bevent) : bool :=
    That is decided before any manager state is looked at. *)
 Definition restarts (own : pv) (async : bool) (it : item) : bool :=
   match run_item own async (mkMgr [] []) it with
-  | (_, _, Err _) => true
+  | (_, _, Err e) => negb (is_cancel e)     (* a CancelledError ends the listener instead *)
   | _ => false
   end.
 
